@@ -1,25 +1,26 @@
 #!/bin/bash
-# detection matrix: every candidate seeded change x (its own property's check + the checks of neighbouring properties)
-MUTDIR=${MUTDIR:-/verif/work/mutkeep}
+# detection matrix: every kept seeded change (seeded/<id>/patch.diff) x (its own property's quick check +
+# the checks of neighbouring properties).  Applies each change to /repo, runs the checks, undoes it.
+# Do not edit /repo, harness/ or coq/ while it runs.   OWN_ONLY=1: only the own property's check.
+# ONLY="C01c C05d": only these changes.
 out=${OUT:-/verif/work/matrix.log}
 OWN_ONLY=${OWN_ONLY:-0}
 : > $out
 declare -A extra=( [C01]="C13" [C02]="C16" [C03]="C05 C04" [C04]="C14" [C05]="C06 C03" [C06]="C13 C09" [C07]="C03 C14" [C08]="C13 C09" [C09]="C06 C04" [C10]="C03" [C11]="C13" [C12]="C14" [C13]="C06" [C14]="C12 C07" [C15]="C02" [C16]="C02" [C17]="" [C18]="" )
-for d in $MUTDIR/C*; do
-  id=$(basename $d)
-  for v in a b; do
-    [ -f $d/$v.diff ] || continue
-    cd /repo && git diff --quiet || { echo "repo dirty" >> $out; exit 1; }
-    if ! git apply $d/$v.diff 2>/dev/null; then patch -p1 --fuzz=3 -s < $d/$v.diff || { echo "$id$v APPLY-FAILED" >> $out; git checkout -- .; continue; }; fi
-    find . -name '*.orig' -delete
-    cd /verif
-    line="$id$v:"
-    for p in $id $( [ "$OWN_ONLY" = 1 ] || echo ${extra[$id]} ); do
-      n=$(./check $p 2>/dev/null | grep -c '^VIOLATION')
-      line="$line $p=$n"
-    done
-    echo "$line" >> $out
-    git -C /repo checkout -- .
+for d in /verif/seeded/C*/; do
+  id=$(basename $d); prop=${id:0:3}
+  [ -f $d/patch.diff ] || continue
+  if [ -n "$ONLY" ] && ! echo " $ONLY " | grep -q " $id "; then continue; fi
+  cd /repo && git diff --quiet || { echo "repo dirty" >> $out; exit 1; }
+  if ! git apply $d/patch.diff 2>/dev/null; then patch -p1 --fuzz=3 -s < $d/patch.diff || { echo "$id: APPLY-FAILED" >> $out; git checkout -- .; find . -name '*.orig' -delete; find . -name '*.rej' -delete; continue; }; fi
+  find . -name '*.orig' -delete
+  cd /verif
+  line="$id:"
+  for p in $prop $( [ "$OWN_ONLY" = 1 ] || echo ${extra[$prop]} ); do
+    n=$(./check $p 2>/dev/null | grep -c '^VIOLATION')
+    line="$line $p=$n"
   done
+  echo "$line" >> $out
+  git -C /repo checkout -- .
 done
 echo DONE >> $out
